@@ -83,6 +83,13 @@ def nodeAt : List Node → Nat → Option Node
 /-- `entries_.erase(position)` -/
 def eraseNode (es : List Node) (id : Nat) : List Node := es.filter (fun n => n.id != id)
 
+/-- `if (entryPosition != entries_.begin()) entries_.splice(entries_.begin(), entries_, entryPosition)` for the
+position of node `n` -/
+def spliceFront (es : List Node) (n : Node) : List Node :=
+  match es with
+  | [] => []
+  | h :: r => if h.id = n.id then h :: r else n :: eraseNode (h :: r) n.id
+
 /-- `freeMem()`: `memLimit() - memoryUsed()` in `uint64_t` -/
 def freeMem (s : State) : Nat := subU64 s.memLimit s.memUsed
 
@@ -105,11 +112,7 @@ def find (s : State) (now : Int) (k : Nat) : Except Fault (State × Option Nat) 
     | none => .error .dangling
     | some n =>
       if !n.e.expired now then
-        -- `if (entryPosition != entries_.begin()) entries_.splice(entries_.begin(), entries_, entryPosition)`
-        let es := match s.entries with
-          | [] => []
-          | h :: r => if h.id = id then h :: r else n :: eraseNode (h :: r) id
-        .ok ({ s with entries := es }, some id)
+        .ok ({ s with entries := spliceFront s.entries n }, some id)
       else
         match erase s k id with
         | .error f => .error f
